@@ -97,3 +97,40 @@ theorem inv_reach (k : Nat) (s s' : Sim d) (h : runN k s = some s') (hi : Inv s)
     · cases h
 
 end Boario
+
+namespace Boario
+variable {d : Dims}
+
+/-- the numeric rejections of the event constructors, one by one -/
+theorem event_tau_rejected (ev : EventSpec d) (h : ev.tau = 0) : eventRejected ev := Or.inl h
+
+theorem event_schedule_rejected (ev : EventSpec d) (h : ev.occ = 0 ∨ ev.dur = 0) : eventRejected ev := by
+  rcases h with h | h
+  · exact Or.inr (Or.inl h)
+  · exact Or.inr (Or.inr (Or.inl h))
+
+theorem event_negative_impact_rejected (ev : EventSpec d) (i : Ind d) (h : ev.impact i < 0) : eventRejected ev :=
+  Or.inr (Or.inr (Or.inr (Or.inl ⟨i.1, i.2, h⟩)))
+
+theorem event_empty_impact_rejected (ev : EventSpec d) (h : ∀ i, ev.impact i = 0) : eventRejected ev :=
+  Or.inr (Or.inr (Or.inr (Or.inr (Or.inl fun r s => h (r, s)))))
+
+theorem event_excess_loss_rejected (ev : EventSpec d) (hk : ev.kind = .arbitrary) (i : Ind d) (h : 1 < ev.impact i) :
+    eventRejected ev :=
+  Or.inr (Or.inr (Or.inr (Or.inr (Or.inr (Or.inl ⟨hk, i.1, i.2, h⟩)))))
+
+theorem event_shares_rejected (ev : EventSpec d) (hk : ev.kind = .rebuild) (h : ¬ sharesSumOK ev) : eventRejected ev :=
+  Or.inr (Or.inr (Or.inr (Or.inr (Or.inr (Or.inr ⟨hk, h⟩)))))
+
+/-- an event that is not rejected has positive characteristic time, occurrence and duration and a
+    non-negative, non-empty impact: the hypotheses of `tracker_init_ok` and of the schedule theorems -/
+theorem event_accepted (ev : EventSpec d) (h : ¬ eventRejected ev) :
+    0 < ev.tau ∧ 0 < ev.occ ∧ 0 < ev.dur ∧ (∀ i, 0 ≤ ev.impact i) ∧ (∃ i, ev.impact i ≠ 0) := by
+  unfold eventRejected at h
+  simp only [not_or, not_exists, not_forall, not_lt] at h
+  obtain ⟨h1, h2, h3, h4, h5, _, _⟩ := h
+  refine ⟨Nat.pos_of_ne_zero h1, Nat.pos_of_ne_zero h2, Nat.pos_of_ne_zero h3, fun i => h4 i.1 i.2, ?_⟩
+  obtain ⟨r, s, hrs⟩ := h5
+  exact ⟨(r, s), hrs⟩
+
+end Boario
